@@ -4,7 +4,7 @@
    value converted in order and the FIRST conversion error returned from inside the loop) transcribe. A slot that is
    skipped (e.g. the variadic one) or an error test moved out of the loop changes the skeleton. *)
 From Coq Require Import List String.
-From Goom Require Import Gen.SigSkeleton Gen.ArgSkeleton.
+From Goom Require Import Gen.SigSkeleton Gen.ArgSkeleton Gen.MockerSkeleton.
 Import ListNotations.
 Open Scope string_scope.
 
@@ -43,4 +43,60 @@ Lemma i2v_skeleton_tie : I2V_skeleton =
    "  if e != nil";
    "    return nil, e";
    "return values, nil"].
+Proof. reflexivity. Qed.
+
+(* C09: arg.toValue and arg.V2I as Model/ToValue.v transcribes them: the stand-in cast only after the size check, nil to
+   the typed zero of the seven nilable kinds, boxing into interface results, otherwise the size check; V2I hands back
+   nil only for zero values of interface / pointer type *)
+Lemma tovalue_skeleton_tie : toValue_skeleton =
+  ["v := reflect.ValueOf(r)";
+   "if r != nil && v.Type() != out && (out.Kind() == reflect.Struct || out.Kind() == reflect.Ptr)";
+   "  if v.Type().Size() != out.Size()";
+   "    return reflect.Value{}, fmt.Errorf(..)";
+   "  v = cast(v, out)";
+   "if r == nil && (out.Kind() == reflect.Interface || out.Kind() == reflect.Ptr || out.Kind() == reflect.Slice || out.Kind() == reflect.Map || out.Kind() == reflect.Array || out.Kind() == reflect.Chan || out.Kind() == reflect.Func)";
+   "  v = reflect.Zero(reflect.SliceOf(out).Elem())";
+   "else";
+   "  if v.Type().Kind() == reflect.Ptr && v.Type() == reflect.TypeOf(&iface.IContext{})";
+   "    panic";
+   "  else";
+   "    if r != nil && out.Kind() == reflect.Interface";
+   "      ptr := reflect.New(out)";
+   "      ptr.Elem().Set(v)";
+   "      v = ptr.Elem()";
+   "    else";
+   "      if v.Type().Size() != out.Size()";
+   "        return reflect.Value{}, fmt.Errorf(..)";
+   "return v, nil"].
+Proof. reflexivity. Qed.
+
+Lemma v2i_skeleton_tie : V2I_skeleton =
+  ["values := make([]interface{}, len(params))";
+   "range i, a := params";
+   "  if (types[i].Kind() == reflect.Interface || types[i].Kind() == reflect.Ptr) && isZero(a)";
+   "    values[i] = nil";
+   "  else";
+   "    values[i] = a.Interface()";
+   "return values"].
+Proof. reflexivity. Qed.
+
+(* C08: var.go as Model/VarMock.v transcribes it: the pre-mock value is saved at the FIRST Set/Apply only, every Set
+   writes the variable, Cancel restores the saved value once and forgets it *)
+Lemma var_doset_skeleton_tie : defaultVarMocker_doSet_skeleton =
+  ["target := m.targetValue.Elem()";
+   "if !m.saved";
+   "  origin := reflect.New(target.Type()).Elem()";
+   "  origin.Set(target)";
+   "  m.originValue = origin";
+   "  m.saved = true";
+   "d := reflect.ValueOf(value)";
+   "target.Set(d)";
+   "m.mockValue = value"].
+Proof. reflexivity. Qed.
+
+Lemma var_cancel_skeleton_tie : defaultVarMocker_Cancel_skeleton =
+  ["if m.saved";
+   "  m.targetValue.Elem().Set(m.originValue)";
+   "  m.saved = false";
+   "m.canceled = true"].
 Proof. reflexivity. Qed.
